@@ -55,6 +55,9 @@ def run(spec, profile=False):
         res['detail'] = repr(r)
     except api.ReachWitness:
         res['outcome'] = 'reach'
+    except api.HarnessUnsupported as e:
+        res['outcome'] = 'unsupported'
+        res['detail'] = 'HarnessUnsupported: %s' % (e,)
     except BaseException as e:  # noqa
         res['outcome'] = 'exception'
         res['detail'] = '%s: %s' % (type(e).__name__, e)
@@ -86,7 +89,7 @@ def main(argv):
                                                        spec.get('args'), res['outcome'], res['detail']))
         if res.get('explain'):
             print(res['explain'])
-    sys.exit({'ok': 0, 'false': 1, 'exception': 1, 'reach': 4}[res['outcome']])
+    sys.exit({'ok': 0, 'false': 1, 'exception': 1, 'reach': 4, 'unsupported': 3}[res['outcome']])
 
 
 if __name__ == '__main__':
